@@ -1,0 +1,20 @@
+//go:build verif
+
+// Package verifhook provides observation points for the verification
+// machinery in /verif. It is only active when built with -tags verif; without
+// the tag every call compiles to a no-op (see nohook.go).
+package verifhook
+
+// Fn, when set, is called at every hook point with the point's name and
+// alternating key/value pairs. A blocking Fn doubles as a scheduler gate.
+var Fn func(point string, kv ...interface{})
+
+// Enabled reports whether hooks are compiled in.
+const Enabled = true
+
+// At reports that execution reached |point|.
+func At(point string, kv ...interface{}) {
+	if f := Fn; f != nil {
+		f(point, kv...)
+	}
+}
